@@ -34,9 +34,11 @@ Import ListNotations.
 Local Open Scope Z_scope.
 
 Record link := mkLink { lk_msg : Z; lk_mbox : Z; lk_uid : Z; lk_flags : list str }.
-Record st := mkSt { links : list link; nexts : list (Z * Z); next_msg : Z }.
-(** ids of the mailboxes named "INBOX" and "Spam" *)
-Record env := mkEnv { inbox_id : Z; spam_id : Z }.
+(** [nexts]: (mailbox id, uid_next) of every mailbox; [spam]: id of the mailbox
+    that is named "Spam" at the moment ([None] after RENAME Spam x / DELETE Spam) *)
+Record st := mkSt { links : list link; nexts : list (Z * Z); next_msg : Z; spam : option Z }.
+(** id of the mailbox named "INBOX" (it can be neither deleted nor renamed away) *)
+Record env := mkEnv { inbox_id : Z }.
 
 Definition in_mbox (mb : Z) (l : link) : bool := lk_mbox l =? mb.
 Definition has_key (mb u : Z) (l : link) : bool := (lk_mbox l =? mb) && (lk_uid l =? u).
@@ -102,21 +104,27 @@ Definition bump (nx : list (Z * Z)) (mb : Z) : list (Z * Z) :=
 Definition set_next (nx : list (Z * Z)) (mb v : Z) : list (Z * Z) :=
   map (fun p => if fst p =? mb then (fst p, v) else p) nx.
 
-Definition with_links (s : st) (ls : list link) : st := mkSt ls (nexts s) (next_msg s).
+Definition with_links (s : st) (ls : list link) : st := mkSt ls (nexts s) (next_msg s) (spam s).
 
 (** ---- MoveMessageToMailbox(messageID, source mailbox, source UID, ...): one
     transaction; the new UID is the destination's uid_next, which is advanced.
-    [None] = (false, nil) "already in the destination" or an error: in both
-    cases nothing changed and the caller goes on to the UPDATE ---- *)
-Definition move (s : st) (msg src u dest : Z) (fl : list str) : option st :=
-  if src =? dest then None
-  else
-    let nu := next_of (nexts s) dest in
-    match insert (links s) (mkLink msg dest nu fl) with
-    | None => None
-    | Some ls' => Some (mkSt (filter (fun l => negb (has_key src u l)) ls')   (* DELETE ... WHERE mailbox_id = ? AND uid = ? *)
-                             (set_next (nexts s) dest (nu + 1)) (next_msg s))
-    end.
+    [dest] = SELECT id FROM mailboxes WHERE name = ?: [None] when no mailbox
+    has the destination's name ("destination mailbox not found", an error).
+    Result [None] = (false, nil) "already in the destination" or an error: in
+    both cases nothing changed and the caller goes on to the in-place UPDATE ---- *)
+Definition move (s : st) (msg src u : Z) (dest : option Z) (fl : list str) : option st :=
+  match dest with
+  | None => None
+  | Some dest =>
+    if src =? dest then None
+    else
+      let nu := next_of (nexts s) dest in
+      match insert (links s) (mkLink msg dest nu fl) with
+      | None => None
+      | Some ls' => Some (mkSt (filter (fun l => negb (has_key src u l)) ls')   (* DELETE ... WHERE mailbox_id = ? AND uid = ? *)
+                               (set_next (nexts s) dest (nu + 1)) (next_msg s) (spam s))
+      end
+  end.
 
 (** UPDATE message_mailbox SET flags = ? WHERE mailbox_id = ? AND uid = ?   (HandleStore and handleUIDStore) *)
 Definition upd_uid (mb u : Z) (ls : list link) (fl : list str) : list link :=
@@ -131,12 +139,12 @@ Definition store_row (e : env) (s : st) (mb : Z) (l0 : link) (item : str) (new :
   let upd := calculate_new_flags cur new item in
   let u := lk_uid l0 in
   if junk_added cur upd then
-    match move s (lk_msg l0) mb u (spam_id e) (remove_flag_from_set (to_set upd) NONJUNK) with
+    match move s (lk_msg l0) mb u (spam s) (remove_flag_from_set (to_set upd) NONJUNK) with
     | Some s' => s'                                    (* moved: "continue", no UPDATE *)
     | None => with_links s (upd_uid mb u (links s) upd)
     end
   else if nonjunk_added cur upd then
-    match move s (lk_msg l0) mb u (inbox_id e) (remove_flag_from_set (to_set upd) JUNK) with
+    match move s (lk_msg l0) mb u (Some (inbox_id e)) (remove_flag_from_set (to_set upd) JUNK) with
     | Some s' => s'
     | None => with_links s (upd_uid mb u (links s) upd)
     end
@@ -194,7 +202,7 @@ Fixpoint copy_seq_loop (ls : list link) (mb dest nu : Z) (ns : list Z) : option 
   end.
 Definition copy_finish (s : st) (dest : Z) (r : option (list link * Z)) : st :=
   match r with
-  | Some (ls', nu') => mkSt ls' (set_next (nexts s) dest nu') (next_msg s)
+  | Some (ls', nu') => mkSt ls' (set_next (nexts s) dest nu') (next_msg s) (spam s)
   | None => s
   end.
 Definition copy_uid (s : st) (mb : Z) (q : seqset) (dest : Z) : st :=
@@ -212,8 +220,8 @@ Definition copy_seq (s : st) (mb : Z) (q : seqset) (dest : Z) : st :=
 Definition append (s : st) (mb : Z) (fl : list str) : st :=
   let u := next_of (nexts s) mb in
   match insert (links s) (mkLink (next_msg s) mb u fl) with
-  | Some ls' => mkSt ls' (bump (nexts s) mb) (next_msg s + 1)
-  | None => mkSt (links s) (bump (nexts s) mb) (next_msg s + 1)
+  | Some ls' => mkSt ls' (bump (nexts s) mb) (next_msg s + 1) (spam s)
+  | None => mkSt (links s) (bump (nexts s) mb) (next_msg s + 1) (spam s)
   end.
 
 (** hasFlag(flags, q) (strings.EqualFold);  instr(' ' || lower(flags) || ' ', ' lower(q) ') > 0 *)
@@ -231,7 +239,28 @@ Inductive op :=
 | OUidCopy (mb : Z) (q : seqset) (dest : Z)
 | OCopy (mb : Z) (q : seqset) (dest : Z)
 | OAppend (mb : Z) (fl : list str)
-| OExpunge (ro : bool) (mb : Z).
+| OExpunge (ro : bool) (mb : Z)
+| ODropSpam (delete : bool)      (* DELETE Spam  /  RENAME Spam <a new name> *)
+| OCreateSpam (id : Z).          (* CREATE Spam; [id] = the id the new mailbox gets *)
+
+(** RENAME keeps the mailbox row (id, messages, uid_next) under another name;
+    DELETE removes the row and its message_mailbox rows (DeleteMailboxPerUser);
+    both answer NO when no mailbox is named Spam *)
+Definition drop_spam (s : st) (delete : bool) : st :=
+  match spam s with
+  | None => s
+  | Some d =>
+      if delete
+      then mkSt (filter (fun l => negb (in_mbox d l)) (links s))
+                (filter (fun p => negb (fst p =? d)) (nexts s)) (next_msg s) None
+      else mkSt (links s) (nexts s) (next_msg s) None
+  end.
+(** CREATE answers NO when the name is taken *)
+Definition create_spam (s : st) (id : Z) : st :=
+  match spam s with
+  | Some _ => s
+  | None => mkSt (links s) (nexts s ++ [(id, 1)]) (next_msg s) (Some id)
+  end.
 
 (** [ro]: state.ReadOnly, set by EXAMINE: NO [READ-ONLY] / CLOSE without expunge;
     a named flag that is not an RFC 3501 flag: BAD Invalid flag, nothing changes *)
@@ -243,6 +272,8 @@ Definition step (e : env) (s : st) (o : op) : st :=
   | OCopy mb q dest => copy_seq s mb q dest
   | OAppend mb fl => if flags_valid fl then append s mb fl else s     (* BAD Invalid flag *)
   | OExpunge ro mb => if ro then s else with_links s (expunge (links s) mb)
+  | ODropSpam delete => drop_spam s delete
+  | OCreateSpam id => create_spam s id
   end.
 
 Fixpoint run (e : env) (s : st) (h : list op) : st :=
